@@ -199,3 +199,34 @@ Definition respond (c : cfg) (is_collection : bool) (payload : json) : option re
   | Some d => Some (format c d)
   | None => None
   end.
+
+(* ---- end to end: an endpoint with several backends ----
+   Each backend payload is decoded and formatted with that backend's own configuration
+   (respond); the parallel merge (proxy/merging.go, model: Verif.Model.C01 instantiated with
+   json values) unites the formatted outputs at top level in the order the answers arrive;
+   the router renders the merged Data as the JSON document the client receives. *)
+Require Verif.Model.C01.
+
+Record backend := { b_cfg : cfg; b_coll : bool; b_payload : json }.
+
+(* the formatted output of a backend that answered; None: its decoder failed (an error) *)
+Definition backend_out (b : backend) : option obj :=
+  match respond (b_cfg b) (b_coll b) (b_payload b) with
+  | Some (Ok m) => Some m
+  | _ => None
+  end.
+
+(* the message requestPart delivers to the merge for this backend *)
+Definition msg_of_backend (b : backend) : C01.msg json :=
+  match backend_out b with
+  | Some m => C01.MP {| C01.data := Some m; C01.complete := true |}
+  | None => C01.MF (C01.EBackend "decode")
+  end.
+
+(* the document the client receives when the backends' answers arrive in the order of the
+   list; None: no document (no backend answered: the router replies with an error status) *)
+Definition client_doc (arrived : list backend) : option obj :=
+  match fst (C01.merge_run (List.length arrived) (map msg_of_backend arrived)) with
+  | Some r => C01.data r
+  | None => None
+  end.
